@@ -43,7 +43,16 @@ ClientAuth == { Dim("tls", v, [F0 EXCEPT !.cauth = TRUE, !.kind = "cauth"]) : v 
 \* no common parameter: disjoint versions / disjoint suites => failure on both sides
 NoCommon == { Dim(r, v, [F0 EXCEPT !.mustFail = TRUE, !.kind = k]) : r \in Roles, v \in Versions \cap {3}, k \in {"nocommon-version", "nocommon-suite"} }
 
-Cases == Base \cup Groups \cup Creds13 \cup Creds12 \cup Alpn \cup Resume \cup ClientAuth \cup NoCommon
+\* tlslite-ng with its whole default version range (TLS 1.0 - 1.3) against an OpenSSL pinned to an older version:
+\* the version-dependent parts of the key exchange (RSA premaster version, ...) must follow the ClientHello
+SidsIn(S_) == {m \in Mutual : m.sid \in S_}
+Range2 == { [Dim(r, v, [F0 EXCEPT !.kind = "range"]) EXCEPT !.sid = m.sid, !.tokens = m.tokens] :
+            r \in Roles, v \in Versions \cap {1, 2, 3}, m \in SidsIn({47, 49171, 51}) }
+\* TLS 1.3 with a HelloRetryRequest (the server does not enable the group of the client's first key share),
+\* as a full handshake and as a ticket resumption
+Hrr == { Dim(r, 4, [F0 EXCEPT !.kind = k, !.resume = (k = "hrr-resume")]) : r \in Roles \cap (IF 4 \in Versions THEN Roles ELSE {}),
+                                                                            k \in {"hrr", "hrr-resume"} }
+Cases == Base \cup Groups \cup Creds13 \cup Creds12 \cup Alpn \cup Resume \cup ClientAuth \cup NoCommon \cup Range2 \cup Hrr
 
 ExpectedAlpn(c) == CASE c.alpn = "none" -> "" [] c.alpn = "overlap" -> "h2" [] c.alpn = "first" -> "http/1.1" [] OTHER -> "-"
 
